@@ -17,6 +17,7 @@ def dispatch (line : String) : String :=
   | "kvfs" :: rest => kvfsEngine rest
   | "kvfs2" :: rest => kvfs2Engine rest
   | "mirrorstore" :: rest => mirrorStoreEngine rest
+  | "tarhdr" :: rest => tarHdrEngine rest
   | "asm15" :: rest => asm15Engine rest
   | "osfs" :: rest => osfsEngine rest
   | "git" :: rest => gitEngine rest
